@@ -235,7 +235,7 @@ structure Prog where
   ms : List MatchSet
   doms : List DomEntry
   ips : List (List Pfx)
-deriving Repr, Inhabited
+deriving DecidableEq, Repr, Inhabited
 
 /-- the `Upstream` byte of a match set. -/
 def tailByte : Tail Nat → Nat
@@ -365,6 +365,7 @@ inductive Err where
   | tooDeep           -- "too deep DNS lookup invoking"
   | forwardFail       -- the upstream did not answer
   | notResponse       -- "DNS response expected but DNS request received"
+  | questionMismatch  -- "dns response does not answer the question asked" (fix: b94e062)
 deriving DecidableEq, Repr, Inhabited
 
 inductive ReqSel where
@@ -444,19 +445,33 @@ def maxDnsLookupDepth : Nat := 3
 /-- upstream behaviour: what the upstream asked at recursion depth `d` answers (`none` = failure). -/
 abbrev Upstreams := Nat → UpRef → Option Resp
 
+/-- `dnsResponseAnswersRequest` (fix b94e062): a request without question is not compared; otherwise the
+response must carry a question with the same type and the same name up to case
+(`strings.EqualFold`; ASCII here).  The class is always IN in this model. -/
+def answersQuestion (q? : Option Question) (r : Resp) : Bool :=
+  match q? with
+  | none => true
+  | some q =>
+    match r.q with
+    | none => false
+    | some rq => rq.qtype == q.qtype && lowerStr rq.name == lowerStr q.name
+
 /-- `dialSend`: returns the upstreams asked, in order, and the final message or the error. -/
-def dialSend (cfg : Cfg) (ans : Upstreams) (depth : Nat) (up : UpRef) : List UpRef × Except Err Resp :=
+def dialSend (cfg : Cfg) (q? : Option Question) (ans : Upstreams) (depth : Nat) (up : UpRef) :
+    List UpRef × Except Err Resp :=
   if _h : depth ≥ maxDnsLookupDepth then ([], .error .tooDeep)
   else
     match ans depth up with
     | none => ([up], .error .forwardFail)
     | some r =>
+      if !answersQuestion q? r then ([up], .error .questionMismatch)
+      else
       match responseSelect cfg r up with
       | .err e => ([up], .error e)
       | .accept => ([up], .ok r)
       | .reject => ([up], .ok { r with recs := [] })
       | .next k =>
-        let rest := dialSend cfg ans (depth + 1) (.up k)
+        let rest := dialSend cfg q? ans (depth + 1) (.up k)
         (up :: rest.1, rest.2)
 termination_by maxDnsLookupDepth - depth
 decreasing_by omega
@@ -523,7 +538,7 @@ def handle (cfg : Cfg) (cache : Cache) (dst : Nat) (isResp : Bool) (q? : Option 
       match cache.lookup key with
       | some recs => ⟨[], .answers recs true, cache⟩
       | none =>
-        match dialSend cfg ans 0 u with
+        match dialSend cfg q? ans 0 u with
         | (t, .error e) => ⟨t, .error e, cache⟩
         | (t, .ok r) =>
           ⟨t, .answers r.recs r.rcodeOk, if r.cacheable then cache.store key r.recs else cache⟩
